@@ -13,6 +13,14 @@ NOTE = ('Trusted base: rustc nightly MIR/HIR of the type-checked program at -Zmi
         'check, not a proof of the behavioural property; see coverage.not_decided in the evidence.')
 
 CLAIMS = {
+    'C18': dict(
+        technique='panic-site inventory over the MIR of everything reachable from verify / config validation / public-input '
+                  'validation (Assert terminators, diverging callees, catalogued partial APIs) with automatic dominating-guard '
+                  'discharge rules, a reasoned safe-site table tied to named validation guards, sibling cross-check',
+        text='Decides that every potential crash site is either provably guarded, explained (with the guard it depends on) or a '
+             'listed genuine finding; any new or newly unguarded site is reported. Panics inside external crates outside the '
+             'catalogue and probability-negligible zero divisions are not decided.',
+        ref='4 C18'),
     'C13': dict(
         technique='leaf-set dataflow on PublicInput::get_hash under both Stone configurations (must-depend-on per field), '
                   'loop-carried accumulator rule, HIR table agreement of the two DynamicParams conversions with the struct '
